@@ -44,6 +44,33 @@ def run(chk):
             for s in f["segments"]:
                 s["length"] = float(round(rng.uniform(3e4, 1e5)))
                 s["thickness"] = [float(round(rng.uniform(5e3, 4e4)))]
+        wedge = (not sph) and wi % 5 == 1
+        if wedge:
+            # steep, short, with a bottom thickness far above every top thickness: slab points lie deeper than
+            # min depth + total length + the largest *top* thickness (the depth cut-off has to use the largest of both)
+            f.pop("sections", None)
+            f.pop("max depth", None)
+            th0 = float(round(rng.uniform(2e4, 6e4)))
+            f["segments"] = [{"length": float(round(rng.uniform(1.5e5, 3e5))), "thickness": [th0, float(round(th0 * rng.uniform(3, 5)))],
+                              "angle": [float(round(rng.uniform(55, 89), 1))]}]
+            if f["model"] == "fault":
+                f["model"] = "subducting plate"
+            f["composition models"] = [{"model": "uniform", "compositions": [0]}]
+            for k in ("temperature models", "grains models", "velocity models"):
+                f.pop(k, None)
+        dateline = sph and wi % 3 == 0
+        if dateline:
+            # a trench just east of the date line written with negative longitudes, dipping west: the feature and its
+            # bounding box reach below -180 degrees and its points on the other side of the cut have longitudes near +180
+            lat0 = rng.uniform(-40, 40)
+            lon0 = -rng.uniform(176.5, 179.5)
+            f["coordinates"] = [[round(lon0, 1), round(lat0 - 6, 1)], [round(lon0 + rng.uniform(-0.5, 0.5), 1), round(lat0 + 6, 1)]]
+            f["dip point"] = [round(lon0 - 20, 1), round(lat0, 1)]
+            if rng.random() < 0.5:
+                # the mirror image: just west of the date line with longitudes near +180, dipping east
+                f["coordinates"] = [[-c[0], c[1]] for c in f["coordinates"]]
+                f["dip point"] = [-f["dip point"][0], f["dip point"][1]]
+            f.pop("sections", None)
         bulge = (not sph) and wi % 5 == 0
         if bulge:
             # a strongly curved trench: the Bezier curve leaves the bounding box of its coordinates; thin, short, shallow slab
@@ -69,6 +96,25 @@ def run(chk):
             curve = [allpts[rng.randrange(25)] for _ in range(40)]      # near the apex of the bulge
         for qi in range(40):
             pos, d = line_query(rng, wj, sph, f)
+            if wedge and qi % 2 == 0:
+                # deep inside the thick lower end of the wedge
+                import math
+                sg = f["segments"][0]
+                th = math.radians(sg["angle"][0])
+                c0, c1 = f["coordinates"][0], f["coordinates"][1]
+                tt = rng.uniform(0.2, 0.8)
+                bx, by = c0[0] + tt * (c1[0] - c0[0]), c0[1] + tt * (c1[1] - c0[1])
+                dx, dy = c1[0] - c0[0], c1[1] - c0[1]
+                L = math.hypot(dx, dy)
+                nx, ny = -dy / L, dx / L
+                if (f["dip point"][0] - c0[0]) * nx + (f["dip point"][1] - c0[1]) * ny < 0:
+                    nx, ny = -nx, -ny
+                al = rng.uniform(0.75, 1.0) * sg["length"]
+                off = rng.uniform(0.3, 0.95) * (sg["thickness"][0] + (al / sg["length"]) * (sg["thickness"][1] - sg["thickness"][0]))
+                u = al * math.cos(th) - off * math.sin(th)
+                v = al * math.sin(th) + off * math.cos(th)
+                d = float(round(f.get("min depth", 0.0) + v))
+                pos = (bx + u * nx, by + u * ny, 1000e3 - d)
             if bulge and curve[qi]:
                 # a point a few km from the curve, a few km deep: inside a thin shallow slab if on the dip side
                 import math
